@@ -22,7 +22,7 @@ type c05Cfg struct {
 	mode             string
 	atoMS            int64
 	tsbd             int64
-	periods          int // 0 none
+	periods          int   // 0 none
 	stop             int64 // 0 none; absolute seconds
 	start            int64
 }
@@ -58,15 +58,15 @@ func (c c05Cfg) String() string {
 var c05PubRe = regexp.MustCompile(` publishTime="[^"]*"`)
 
 type c05State struct {
-	t        int64
-	body     []byte
-	pub      int64
-	pubStr   string
-	first    map[string]uint64 // per rep: time of first listed segment
-	last     map[string]uint64
-	nPeriods int
+	t         int64
+	body      []byte
+	pub       int64
+	pubStr    string
+	first     map[string]uint64 // per rep: time of first listed segment
+	last      map[string]uint64
+	nPeriods  int
 	periodIDs string
-	typ      string
+	typ       string
 }
 
 func TestVerifC05(t *testing.T) {
@@ -189,7 +189,7 @@ func c05RunCfg(rep *vh.Report, c c05Cfg, quick bool) {
 		pd := int64(3600/c.periods) * 1000
 		for k := int64(0); k <= 3; k++ {
 			for _, o := range []int64{0, c.tsbd * 1000} {
-				T := ((ast / pd) + k) * pd + o
+				T := ((ast/pd)+k)*pd + o
 				add(T - 1)
 				add(T)
 				add(T + 1)
